@@ -844,12 +844,15 @@ class FunctionPlugin(PrimitivePlugin):
             raise RuntimeError("[onnx_function] Function registry missing")
 
         # Dedup key: (qualified, in_sigs, capture)
-        in_sigs: list[tuple[tuple[Any, ...], str]] = []
+        in_sigs: list[tuple[tuple[Any, ...], str, bool]] = []
         for v in eqn.invars:
             aval = getattr(v, "aval", None)
             shape = tuple(getattr(aval, "shape", ()))
             dtype = getattr(aval, "dtype", None)
-            in_sigs.append((shape, str(dtype)))
+            # the body is re-traced with the argument's weak_type: a weakly and a
+            # strongly typed scalar give different bodies (float16 * 2.0)
+            weak = bool(getattr(aval, "weak_type", False))
+            in_sigs.append((shape, str(dtype), weak))
         in_sigs_t = tuple(in_sigs)
         qualname = self.name
 
